@@ -1,5 +1,212 @@
-"""Leg T over pipeline hook traces (filled in once the hooks exist)."""
-def leg_t(run, prop, tier):
-    run.notes["leg_T"] = "not built yet"
-def replay(run, rc):
-    pass
+"""Leg T over pipeline hook traces: direct-integration targeting of random lattice problems that are an order of
+magnitude larger than the exhaustive bounds (4-12 streams on a 20-point lattice, 1-3 zones, isothermal ladders),
+recorded by the hooks and judged by TLC with spec/TracePipeline.tla (C01, C03, C04, C05, C06, C07).  The recorded
+insert_temperature_interval calls of the same runs are judged by the C08 predicates (positions the pipeline
+actually uses: off-centre, several per interval, beyond both ends)."""
+from __future__ import annotations
+
+import json
+import random
+import shutil
+import tempfile
+from multiprocessing import Pool
+from pathlib import Path
+
+from ..common import Run, Emb, repo_import, seed
+from ..tlc import run_tlc, write_cfg, MachineryError
+
+K = 100
+EMB = Emb("native", 100.0, 0.01, 1.0, True)
+_OP = {}
+
+
+def _init():
+    repo_import()
+    from OpenPinch import pinch_analysis_service, _verif
+    from OpenPinch.lib.enums import ProblemTableLabel as PT
+    _OP.update(service=pinch_analysis_service, verif=_verif, PT=PT)
+    from . import table as _table
+    _table._init()
+
+
+def random_problem(rnd: random.Random):
+    n = rnd.randint(4, 12)
+    nz = rnd.randint(1, 3)
+    streams = []
+    for i in range(n):
+        kind = rnd.choice("HC")
+        if rnd.random() < 0.1:
+            t = 100 * rnd.randint(0, 20)
+            lo, hi, cp = (t, t + 1, 100 * rnd.randint(1, 4)) if kind == "C" else (t - 1, t, 100 * rnd.randint(1, 4))
+        else:
+            a, b = sorted(rnd.sample(range(0, 21), 2))
+            lo, hi, cp = 100 * a, 100 * b, rnd.randint(1, 4)
+        streams.append(dict(k=kind, lo=lo, hi=hi, cp=cp, dtc=rnd.choice([0, 50, 100]), z=rnd.randint(1, nz)))
+    ladder = []
+    for j in range(rnd.randint(0, 2)):
+        L = 50 * rnd.randint(4, 36)
+        ladder.append(dict(name=f"HL{j}", type="Hot", ts=L, tt=L))
+    for j in range(rnd.randint(0, 2)):
+        L = 50 * rnd.randint(2, 30)
+        ladder.append(dict(name=f"CL{j}", type="Cold", ts=L, tt=L))
+    # distinct levels only (equal supply temperatures fall back to insertion order)
+    seen, lad = set(), []
+    for u in ladder:
+        if (u["type"], u["ts"]) not in seen:
+            seen.add((u["type"], u["ts"])); lad.append(u)
+    return dict(S=streams, ladder=lad)
+
+
+def request(p):
+    emb = EMB
+    st = []
+    for i, s in enumerate(p["S"]):
+        ts, tt = (s["hi"], s["lo"]) if s["k"] == "H" else (s["lo"], s["hi"])
+        t_sup, t_tar = emb.T(ts), emb.T(tt)
+        if s["hi"] - s["lo"] == 1 and s["k"] == "C":
+            t_tar = t_sup
+        st.append(dict(zone=f"Z{s['z']}", name=f"S{i+1}", t_supply=t_sup, t_target=t_tar, heat_flow=emb.Q(s["cp"] * (s["hi"] - s["lo"])),
+                       dt_cont=emb.dT(s["dtc"]), htc=1.0))
+    ut = [dict(name=u["name"], type=u["type"], t_supply=emb.T(u["ts"]), t_target=emb.T(u["tt"]), heat_flow=0.0, dt_cont=0.0, htc=1.0, price=1.0)
+          for u in p["ladder"]]
+    return dict(streams=st, utilities=ut, options={"DT_CONT": emb.dT(50), "DT_PHASE_CHANGE": emb.dT(10)})
+
+
+def fx(x):
+    return int(round(x * K))
+
+
+def drive(args):
+    idx, p = args
+    V, PT, emb = _OP["verif"], _OP["PT"], EMB
+    V.reset()
+    try:
+        out, mz = _OP["service"](request(p), project_name="Site", is_return_full_results=True)
+    except Exception as e:
+        return dict(idx=idx, raises=repr(e)[:300], events=[], inserts=[])
+    events, inserts = [], []
+    cur = None
+    for e in V.EVENTS:
+        if e["ev"] == "DI_begin":
+            cur = e["zone"]
+        elif e["ev"] == "insert" and cur is not None and e["before"] is not None and e["err"] is None:
+            inserts.append(e)
+        elif e["ev"] == "tables" and e["kind"] == "DI" and cur is not None:
+            z = cur
+            ci = e["col_index"]
+            P, R = e["pt"], e["pt_real"]
+            S = []
+            for s in list(z.hot_streams) + list(z.cold_streams):
+                lo, hi = emb.untT(s.t_min), emb.untT(s.t_max)
+                cp = s.CP * emb.b / emb.c
+                S.append(dict(k="H" if s.type == "Hot" else "C", lo=int(round(lo * K)), hi=int(round(hi * K)), cp=int(round(cp)),
+                              dtc=int(round(s.dt_cont / emb.b * K)), _exact=abs(cp - round(cp)) < 1e-6 and abs(lo - round(lo)) < 1e-6))
+            if not S or not all(s.pop("_exact") for s in S):
+                continue
+            t = z.targets.get(f"{z.name}/Direct Integration")
+            if t is None:
+                continue
+            col = lambda M, k: [fx(emb.untQ(float(v))) for v in M[:, ci[k]]]
+            tcol = lambda M: [fx(emb.untT(float(v))) for v in M[:, ci["T"]]]
+            hp, cp_ = t.hot_pinch, t.cold_pinch
+            has = hp is not None and cp_ is not None
+            ev = dict(id=f"{idx}:{z.name}", S=S, tol=2 * sum(s["cp"] for s in S) + 6,
+                      T=tcol(P), dT=[fx(float(v) / emb.b) for v in P[:, ci["ΔT"]]], Hhot=col(P, "H_hot"), Hcold=col(P, "H_cold"), Hnet=col(P, "H_net"),
+                      NP=col(P, "H_net_np"), UT=col(P, "H_net_ut"), heat=col(P, "H_cold_net"), cool=col(P, "H_hot_net"),
+                      Tr=tcol(R), dTr=[fx(float(v) / emb.b) for v in R[:, ci["ΔT"]]], HhotR=col(R, "H_hot"), HcoldR=col(R, "H_cold"), HnetR=col(R, "H_net"),
+                      Qh=fx(emb.untQ(t.hot_utility_target)), Qc=fx(emb.untQ(t.cold_utility_target)), Qr=fx(emb.untQ(t.heat_recovery_target)),
+                      hasPinch=bool(has), hotPinch=fx(emb.untT(float(hp))) if has else 0, coldPinch=fx(emb.untT(float(cp_))) if has else 0,
+                      hu=[fx(emb.untQ(u.heat_flow)) for u in t.hot_utilities], cu=[fx(emb.untQ(u.heat_flow)) for u in t.cold_utilities])
+            if max(abs(v) for k_ in ("T", "Hhot", "Hcold", "Hnet", "Tr") for v in ev[k_]) < 20_000_000:
+                events.append(ev)
+    # C08 on the calls the pipeline really made
+    from .table import judge_call
+    c08 = []
+    class _T:
+        pass
+    import numpy as np
+    for e in inserts:
+        b, a = _T(), _T()
+        b.data, a.data, b.col_index, a.col_index = e["before"], e["after"], e["col_index"], e["col_index"]
+        req = np.atleast_1d(np.asarray(e["req"], float)).tolist()
+        hs = [abs(float(x)) for x in np.nan_to_num(e["before"][:, [e["col_index"]["H_hot"], e["col_index"]["H_cold"], e["col_index"]["H_net"]]]).ravel()]
+        for clause, d in judge_call(b, a, req, e["ret"], max(1.0, max(hs) if hs else 1.0), 1.0):
+            c08.append((clause, dict(d, request=req)))
+    return dict(idx=idx, events=events, inserts=len(inserts), c08=c08)
+
+
+def run_traces(tier):
+    rnd = random.Random(seed() * 7919 + 17)
+    n = 100 if tier == "quick" else 1500
+    probs = [random_problem(rnd) for _ in range(n)]
+    with Pool(16, initializer=_init) as pool:
+        results = pool.map(drive, list(enumerate(probs)), chunksize=4)
+    events = [e for r in results for e in r["events"]]
+    tmp = Path(tempfile.mkdtemp(prefix="trace_"))
+    verdicts = {}
+    tres = None
+    try:
+        for i in range(0, len(events), 800):
+            tf = tmp / f"pipe{i}.json"
+            tf.write_text(json.dumps(events[i:i + 800]))
+            cfg = tmp / "t.cfg"
+            write_cfg(cfg, spec="Spec", constants=dict(Temps={0}, CPs={1}, DTCs={0}, LatentCPs=set(), ActStrict=True, ShiftByMin=True),
+                      postcondition="TraceAccepted")
+            tres = run_tlc("TracePipeline.tla", cfg, workers=1, xmx="4g", env={"TRACE_FILE": str(tf)})
+            if tres.violated:
+                raise MachineryError("pipeline trace not consumed:\n" + tres.stdout[-1500:])
+            for tag, obj in tres.lines:
+                if tag == "VERDICT":
+                    verdicts[obj["id"]] = obj["fails"]
+    finally:
+        shutil.rmtree(tmp, ignore_errors=True)
+    return probs, results, events, verdicts, tres
+
+
+def leg_t(run: Run, prop: str, tier: str):
+    probs, results, events, verdicts, tres = run_traces(tier)
+    if tres is not None:
+        run.add_tlc(tres, "TracePipeline (last batch)")
+    pre = prop + "."
+    byid = {e["id"]: e for e in events}
+    for r in results:
+        if "raises" in r and prop in ("C01", "C14"):
+            run.violation(prop + ".service_raises", probs[r["idx"]], dict(exc=r["raises"]), leg="T")
+        if prop == "C08":
+            for clause, d in r.get("c08", []):
+                run.violation(clause, probs[r["idx"]], dict(d, in_pipeline=True), leg="T")
+    for eid, fails in verdicts.items():
+        for c in fails:
+            if c.startswith(pre):
+                e = byid[eid]
+                run.violation(c, dict(problem=probs[int(eid.split(":")[0])], zone=eid.split(":")[1]),
+                              dict(streams=e["S"], Qh=e["Qh"], Qc=e["Qc"], rows=len(e["T"])), leg="T")
+    run.cov["traces_validated_against_impl"] += len(events) if prop != "C08" else sum(r.get("inserts", 0) for r in results)
+    run.cov["evaluations"] += len(events) if prop != "C08" else sum(r.get("inserts", 0) for r in results)
+    run.notes["leg_T"] = dict(random_problems=len(probs), zone_events_judged_by_TLC=len(events),
+                              in_pipeline_insert_calls=sum(r.get("inserts", 0) for r in results),
+                              max_streams_in_a_zone=max((len(e["S"]) for e in events), default=0),
+                              max_rows=max((len(e["T"]) for e in events), default=0))
+
+
+def replay(run: Run, rc):
+    _init()
+    p = rc["case"].get("problem", rc["case"])
+    r = drive((0, p))
+    tmp = Path(tempfile.mkdtemp(prefix="trace_"))
+    try:
+        tf = tmp / "p.json"; tf.write_text(json.dumps(r["events"]))
+        cfg = tmp / "t.cfg"
+        write_cfg(cfg, spec="Spec", constants=dict(Temps={0}, CPs={1}, DTCs={0}, LatentCPs=set(), ActStrict=True, ShiftByMin=True), postcondition="TraceAccepted")
+        tres = run_tlc("TracePipeline.tla", cfg, workers=1, xmx="2g", env={"TRACE_FILE": str(tf)})
+    finally:
+        shutil.rmtree(tmp, ignore_errors=True)
+    for tag, obj in tres.lines:
+        if tag == "VERDICT":
+            for c in obj["fails"]:
+                if c.startswith(run.prop + "."):
+                    run.violation(c, rc["case"], dict(event=obj["id"]), leg="T")
+    if run.prop == "C08":
+        for clause, d in r.get("c08", []):
+            run.violation(clause, rc["case"], d, leg="T")
+    run.cov["evaluations"] = 1
